@@ -112,6 +112,8 @@ def jobs(tier):
         for n, h in archs:
             out.append(dict(name="%s-%dx%d" % (kind, n, h), module="checks.c01", scenario="scenario", kwargs=dict(kind=kind, n=n, h=h)))
     out.append(dict(name="complex-module-2x3", module="checks.c01", scenario="scenario", kwargs=dict(kind="complex-module", n=2, h=3)))
+    if tier == "quick":
+        out.append(dict(name="positive-5x1", module="checks.c01", scenario="scenario", kwargs=dict(kind="positive", n=5, h=1)))
     for j in out:  # the property's range: magnitudes up to ~30 (pre-activations reach n * 10 + 10 here)
         j["opts"] = dict(extreme=dict(scale=10.0, points=2))
     # largest first so the pool is balanced
